@@ -136,7 +136,10 @@ class Case:
                'want ' + ' '.join(want),
                'xor ' + ('-' if self.xor is None else ('empty' if self.xor == b'' else self.xor.hex()))]
         for n, exts in self.files.items():
-            for o, d in exts: out.append('file %d %d %s' % (n, o, d.hex() if d else '-'))
+            for o, d in exts:
+                if self.xor:      # the model receives the bytes as they are on disk
+                    k = self.xor; kl = len(k); d = bytes(b ^ k[(o + i) % kl] for i, b in enumerate(d))
+                out.append('file %d %d %s' % (n, o, d.hex() if d else '-'))
         for k, v in self.records: out.append('rec %s %s' % (k.hex(), v.hex()) if v else 'rec %s' % k.hex())
         out.append('end')
         return '\n'.join(out) + '\n'
@@ -187,6 +190,9 @@ def load_case(path):
         if t[0] == 'case': c = Case(t[1], coin); c.name_of = names
         elif t[0] == 'opts': c.start = int(t[1]); c.end = None if t[2] == '-' else int(t[2]); c.verify = t[3] == '1'
         elif t[0] == 'xor': c.xor = None if t[1] == '-' else (b'' if t[1] == 'empty' else bytes.fromhex(t[1]))
-        elif t[0] == 'file': c.files.setdefault(int(t[1]), []).append((int(t[2]), b'' if t[3] == '-' else bytes.fromhex(t[3])))
+        elif t[0] == 'file':
+            o = int(t[2]); d = b'' if t[3] == '-' else bytes.fromhex(t[3])
+            if c.xor: k = c.xor; d = bytes(b ^ k[(o + i) % len(k)] for i, b in enumerate(d))      # replay files hold disk bytes
+            c.files.setdefault(int(t[1]), []).append((o, d))
         elif t[0] == 'rec': c.records.append((bytes.fromhex(t[1]), bytes.fromhex(t[2]) if len(t) > 2 else b''))
     return c
